@@ -52,6 +52,19 @@ PLAIN_NAMES = ["alpha.txt", "beta.html", "gamma", "delta.txt", "Zeta", "eta.jpg"
 DOT_NAMES = [".hidden", ".profile", ".x", ".private", ".d"]
 DOT_DIRS = [".private", ".d"]
 LINK_FILES = [".names", ".links", ".Links", ".extra"]
+# names that no menu line can carry (TAB / CR / LF): they may be left out, but must never add foreign items
+CTL_NAMES = ["tab\tname.txt", "x\r\n1Evil\t\tevil.example\t70\r\n0y", "cr\rname", "lf\nname.html"]
+# names that contain the separators of the virtual-argument syntax, next to a mail folder of the same stem
+SEP_NAMES = ["box|", "box?", "box|x", "other?q"]
+HTML_BODIES = ["<title>%s</title>", "<html><head><title>%s</title></head></html>", "<html>no title: %s</html>",
+               "<![ endif]><title>%s</title>", "<html><![foo[ <title>%s</title>", "<!DOCTYPE html>\n<title>%s\n</title>",
+               "<title>%s", "<!-- <title>c</title> --><TITLE>%s</TITLE>", "<![CDATA[x]]><title>%s</title>"]
+DOT_BODIES = ["", "# comment only\n", "Port=auto\n", "Type=\n", "Numb=x\n", "just some text\n",
+              "KEY=value\nPort=auto\n", "#c\nType=\nName=\n"]
+
+
+def _ctl(nm):
+    return any(c in nm for c in "\t\r\n")
 
 
 def gen(seed, index, tier):
@@ -63,21 +76,32 @@ def gen(seed, index, tier):
     pools = [PLAIN_NAMES, PLAIN_NAMES, MATCH_NAMES, NEAR_NAMES, DOT_NAMES]
     while len(names) < n:
         names.add(rng.choice(rng.choice(pools)))
+    if rng.random() < 0.12:
+        names.add(rng.choice(CTL_NAMES))
+    mailbox = None
+    if rng.random() < 0.12:
+        mailbox = rng.choice(["mbox", "maildir"])
+        names.add("box")
+        for nm in rng.sample(SEP_NAMES, rng.choice([1, 2, 3])):
+            names.add(nm)
     names = sorted(names)
     spec = ([{"p": dname, "k": "dir"}] if dname else [])
     kinds = {}
     for nm in names:
-        if nm in DOT_DIRS or (rng.random() < 0.2 and not nm.startswith(".") and "." not in nm
-                              and "~" not in nm):
+        if nm == "box" and mailbox:
+            spec.append({"p": pre + nm, "k": mailbox, "n": 2})
+            kinds[nm] = mailbox
+        elif nm in DOT_DIRS or (rng.random() < 0.2 and not nm.startswith(".") and "." not in nm
+                                and "~" not in nm and nm not in SEP_NAMES and not _ctl(nm)):
             spec.append({"p": pre + nm, "k": "dir"})
             spec.append({"p": pre + nm + "/inner.txt", "k": "file", "d": "inner\n"})
             kinds[nm] = "dir"
         else:
             if nm.startswith(".") and nm not in (".cache.x",):
                 # a dot-file is read as a UMN link file: give it harmless or empty content
-                d = rng.choice(["", "# comment only\n"])
+                d = rng.choice(DOT_BODIES) if rng.random() < 0.5 else rng.choice(["", "# comment only\n"])
             elif nm.endswith(".html"):
-                d = "<title>%s</title>" % nm
+                d = (rng.choice(HTML_BODIES) if rng.random() < 0.5 else "<title>%s</title>") % nm.strip()
             else:
                 d = "content of %s\n" % nm
             spec.append({"p": pre + nm, "k": "file", "d": d})
@@ -214,6 +238,11 @@ def execute(sc, tape=None):
                 for nm in present:
                     if nm.startswith(".cache.pygopherd"):
                         continue
+                    if _ctl(nm):
+                        # no menu line can carry this name: it may be left out (the selector filter refuses
+                        # it), but then nothing else may appear in its place - checked through the targets
+                        counters["unrepresentable_name_present"] = 1
+                        continue
                     ign = re.search(ignorepatt, selbase + "/" + nm) is not None
                     dot = nm.startswith(".")
                     hid = umn and (nm in sc["hidden_link"] or nm in sc["hidden_cap"])
@@ -227,7 +256,7 @@ def execute(sc, tape=None):
                         visible.append(nm)
                 if len(sc["linkfiles"]) >= 2:
                     counters["two_link_files"] = 1
-                want_local = sorted((selbase + "/" + nm).encode() for nm in visible)
+                want_local = sorted((selbase + "/" + nm).encode("utf-8", "surrogateescape") for nm in visible)
                 want_add = sorted(a.encode() for a in sc["additions"]) if umn else []
                 got_targets = [e[2] for e in ents if e[0] == "link"]
                 pre_b = (selbase + "/").encode()
